@@ -1,6 +1,6 @@
 # C12 — buffering conserves records and flushes blocks exactly at the configured size.
 import common, schema, histgen, p_hist, itertools, random
-THEOREMS = ["C12_flush_rule", "C12_conservation", "C12_block_bound", "C12_flush_clears", "C12_nonvacuous"]
+THEOREMS = ["C12_flush_rule", "C12_conservation", "C12_block_bound", "C12_flush_clears", "C12_nonzero_iff_written", "C12_nonvacuous"]
 
 def gen_cases(sch, tier, rng):
     cases = []
